@@ -639,11 +639,20 @@ ssize_t ICACHE_FLASH_ATTR __mqtt_send(struct mqtt_client *client)
     return MQTT_OK;
 }
 
+#ifdef SUPLA_VERIF_HOOKS
+/* Observation hooks for the /verif harness (no effect on behaviour). */
+void supla_verif_hook_mqtt_recv_begin(void);
+void supla_verif_hook_mqtt_handled(int control_type, long consumed, long result);
+#endif /*SUPLA_VERIF_HOOKS*/
+
 ssize_t ICACHE_FLASH_ATTR __mqtt_recv(struct mqtt_client *client)
 {
     struct mqtt_response response;
     ssize_t mqtt_recv_ret = MQTT_OK;
     MQTT_PAL_MUTEX_LOCK(&client->mutex);
+#ifdef SUPLA_VERIF_HOOKS
+    supla_verif_hook_mqtt_recv_begin();
+#endif /*SUPLA_VERIF_HOOKS*/
 
     /* read until there is nothing left to read, or there was an error */
     while(mqtt_recv_ret == MQTT_OK) {
@@ -874,6 +883,9 @@ ssize_t ICACHE_FLASH_ATTR __mqtt_recv(struct mqtt_client *client)
                 mqtt_recv_ret = MQTT_ERROR_MALFORMED_RESPONSE;
                 break;
         }
+#ifdef SUPLA_VERIF_HOOKS
+        supla_verif_hook_mqtt_handled(response.fixed_header.control_type, (long)consumed, (long)mqtt_recv_ret);
+#endif /*SUPLA_VERIF_HOOKS*/
         {
           /* we've handled the response, now clean the buffer */
           void* dest = (unsigned char*)client->recv_buffer.mem_start;
